@@ -342,8 +342,13 @@ func (w *Workload) GenDocCmd(r *model.Rand, big bool) Base {
 			d0.Insts = append(d0.Insts, model.GenDoc(r, o).Insts...)
 		}
 		d0.Insts = d0.Insts[:want]
-		argv := model.Pick(r, [][]string{{"write", "parse"}, {"write", "conv", "-c", "cmt"}, {"write", "event"}, {"write"}})
-		return Base{Argv: append([]string{}, argv...), Input: []byte(d0.YAML(r.Intn(2))), InputArg: true, Class: "doc", Tracks: 1}
+		argv := append([]string{}, model.Pick(r, [][]string{{"write", "parse"}, {"write", "conv", "-c", "cmt"}, {"write", "event"}, {"write"}})...)
+		if r.Chance(1, 3) {
+			// an override given once applies once, wherever the work is split
+			ov := model.Pick(r, [][]string{{"--bpm", "97"}, {"--key", "Eb"}, {"--velocity", "pp"}, {"--meter", "3/4"}, {"--bpm", "200", "--key", "F#m"}})
+			argv = append(argv, ov...)
+		}
+		return Base{Argv: argv, Input: []byte(d0.YAML(r.Intn(2))), InputArg: true, Class: "doc", Tracks: 1}
 	}
 	if r.Chance(1, 150) {
 		// several hundred instances: outputs of a few hundred KiB
@@ -465,7 +470,14 @@ func (w *Workload) GenInfo(r *model.Rand) Base {
 		if r.Chance(1, 2) {
 			b.Argv = append(b.Argv, "-s")
 		}
-	case 4, 5:
+	case 4:
+		if r.Chance(1, 4) {
+			// a command given without the option it needs: it fails, the same way every time
+			b.Argv = model.Pick(r, [][]string{{"info", "attr", "describe"}, {"info", "chord", "describe"}, {"info", "key", "describe"}, {"info", "key", "conv"}, {"info", "attr", "describe", "-s"}})
+			break
+		}
+		b.Argv = []string{"info", "key", "list"}
+	case 5:
 		b.Argv = []string{"info", "key", "list"}
 	case 6:
 		b.Argv = []string{"info", "key", "describe", "--key", model.Pick(r, model.SupportedKeys)}
@@ -505,7 +517,12 @@ func (w *Workload) WithDict(r *model.Rand, b *Base) {
 		names = append(names, "Third", "th", "my", "my11", "MyChord")
 		if r.Chance(1, 5) {
 			// one of the later files cannot be used: every run must fail alike
-			switch r.Intn(3) {
+			switch r.Intn(5) {
+			case 3:
+				// well-formed YAML that names an attribute nobody defines
+				b.Files["/sim/chords3.yml"] = &simrt.FileSpec{Data: []byte("- name: Third\n  meta:\n    display: th\n  attributes:\n    - Perfect1\n    - NoSuchAttribute\n")}
+			case 4:
+				b.Files["/sim/chords2.yml"] = &simrt.FileSpec{Data: []byte("- name: Third\n  meta:\n    display: th\n  extends: NoSuchChord\n")}
 			case 0:
 				delete(b.Files, "/sim/chords3.yml")
 			case 1:
